@@ -303,12 +303,14 @@ startConn:
 		c.debug.Printf("connecting to %s... (sts: %v, config-ssl: %v)", addr, c.state.sts.enabled(), c.Config.SSL)
 		conn, err := newConn(c.Config, dialer, addr, &c.state.sts)
 		if err != nil {
-			if _, ok := err.(*ErrSTSUpgradeFailed); ok {
-				if !c.state.sts.enabled() {
-					c.RunHandlers(&Event{Command: STS_ERR_FALLBACK})
-				}
-			}
+			_, stsFailed := err.(*ErrSTSUpgradeFailed)
+			fallback := stsFailed && !c.state.sts.enabled()
 			c.mu.Unlock()
+			// Handlers may call back into the client (IsConnected, Send, ...), so
+			// they must not run while Client.mu is held.
+			if fallback {
+				c.RunHandlers(&Event{Command: STS_ERR_FALLBACK})
+			}
 			return err
 		}
 
